@@ -324,7 +324,12 @@ def run_data_impl(case, drain=True):
         dlcs = {}
         logs = {'a': [], 'b': []}
         for d, ini, rsp in case['cfg']:
-            da, db = await pair.open(d >> 1, ini, rsp)
+            try:
+                da, db = await pair.open(d >> 1, ini, rsp)
+            except Exception as e:
+                return None, None, list(case['labels']), (
+                    f'setup: open_dlc with frame sizes {ini[0]} / {rsp[0]}, credits {ini[1]} / {rsp[1]}, L2CAP MTUs '
+                    f"{case['mtu_i']} / {case['mtu_r']} failed with {type(e).__name__}")
             assert da.dlci == d and db.dlci == d
             da.sink = lambda data, d=d: logs['a'].append((d, bytes(data)))
             db.sink = lambda data, d=d: logs['b'].append((d, bytes(data)))
@@ -681,8 +686,13 @@ def sm2_label_name(l):
     return sm2_label_coq(l).strip('()')
 
 
-def classify2(pdu: bytes):
-    """control frame -> fr2_code of Model/RfcommSm2.v; None for an MSC frame"""
+SM2_BAD_SIZES = [22, 32768, 0]      # proposed by open number 3, 4, 5 (channel 0, 1, 2)
+
+
+def classify2(pdu: bytes, pend=-1):
+    """control frame -> fr2_code of Model/RfcommSm2.v; None for an MSC frame.  Open numbers
+    3..5 are channels 0..2 opened with an unacceptable frame size: a PN command is told apart
+    by the size it carries, the DM that answers it by the open that is pending."""
     dlci, ftype, pf, info = parse_frame(pdu)
     if dlci == 0:
         if ftype == SABM:
@@ -695,13 +705,16 @@ def classify2(pdu: bytes):
             mcc = info[0] >> 2
             if mcc == 0x20:
                 d = SM2_DLCI.get(info[2], 9)
-                return (100 if (info[0] >> 1) & 1 else 110) + d
+                size = info[6] | (info[7] << 8)
+                if (info[0] >> 1) & 1:
+                    return 100 + d + (0 if 23 <= size <= 32767 else 3)
+                return 110 + d
             if mcc == 0x38:
                 return None
         return 999
     d = SM2_DLCI.get(dlci, 9)
     if ftype == DM:
-        return 120 + d
+        return 120 + (pend if pend >= 3 and pend - 3 == d else d)
     if ftype == SABM:
         return 130 + d
     if ftype == UA:
@@ -723,7 +736,7 @@ def gen_sm2_schedule(rng, n):
         out += up0
     if r < 3:
         out += up1
-    ops = [10, 11, 12, 20, 21, 30, 31]
+    ops = [10, 11, 12, 20, 21, 30, 31, 13, 14, 15]
     for _ in range(n):
         x = rng.below(100)
         if x < 45:
@@ -747,6 +760,10 @@ def enum_sm2_schedules(depth):
     base0 = [0, 8, 9, 10, 8, 9, 8, 9]
     for seq in itertools.product([11, 12, 20, 30, 8, 9], repeat=depth):
         yield base0 + list(seq) + [8, 9] * 6
+    # the same with an open of link 1 whose frame size the responder refuses
+    for seq in itertools.product([14, 20, 30, 8, 9], repeat=min(depth, 4)):
+        if 14 in seq:
+            yield base0 + list(seq) + [8, 9] * 6
     if depth >= 4:
         base1 = base0 + [11, 8, 9, 8, 9]
         for seq in itertools.product([12, 20, 31, 8, 9], repeat=depth):
@@ -796,15 +813,17 @@ def run_sm2_impl(labels, exchange=True):
                     if pair.ma.state == Multiplexer.State.INIT:
                         spawn(pair.ma.connect())
                 elif 10 <= l < 20:
-                    d = l - 10
+                    k = l - 10
+                    d = k % 3
+                    size = 600 if k < 3 else SM2_BAD_SIZES[k - 3]
                     if pair.ma.state == Multiplexer.State.CONNECTED:
                         if pair.ma.dlcs.get(SM2_CH[d] * 2) is None:
-                            opens.append([d, spawn(pair.ma.open_dlc(SM2_CH[d], 600, 4)), False])
+                            opens.append([k, spawn(pair.ma.open_dlc(SM2_CH[d], size, 4)), False])
                     else:
                         # only one open_dlc may be in flight; otherwise the call must raise
                         # InvalidStateError at once and change nothing
                         before = (int(pair.ma.state), len(pair.ab))
-                        t = spawn(pair.ma.open_dlc(SM2_CH[d], 600, 4))
+                        t = spawn(pair.ma.open_dlc(SM2_CH[d], size, 4))
                         await asyncio.sleep(0)
                         if not (t.done() and isinstance(t.exception(), core.InvalidStateError)
                                 and before == (int(pair.ma.state), len(pair.ab))):
@@ -843,6 +862,7 @@ def run_sm2_impl(labels, exchange=True):
                     if d < 2:
                         ok = exc is None and t.result().dlci == SM2_CH[d] * 2
                     else:
+                        # refused channel, or frame size the responder does not accept
                         ok = isinstance(exc, core.ConnectionError)
                     if not ok:
                         bad = True
@@ -852,8 +872,8 @@ def run_sm2_impl(labels, exchange=True):
             pend = next((o[0] for o in opens if not o[1].done()), -1)
             o = [[int(pair.ma.state), slot_state(pair.ma, 0), slot_state(pair.ma, 1), pend],
                  [int(pair.mb.state), slot_state(pair.mb, 0), slot_state(pair.mb, 1), -1],
-                 bad, [c for c in map(classify2, pair.ab) if c is not None],
-                 [c for c in map(classify2, pair.ba) if c is not None]]
+                 bad, [c for c in (classify2(p, pend) for p in pair.ab) if c is not None],
+                 [c for c in (classify2(p, pend) for p in pair.ba) if c is not None]]
             trace.append(o)
             if not problems and first_bad:
                 problems.append(first_bad)
@@ -1124,6 +1144,94 @@ def run_d20j(ctx, batch):
                           'the responder disconnects the multiplexer while open_dlc is in flight: open_dlc never returns'
                           if res[4] == 0 else 'DLC states differ', {'kind': 'd20j'})
     batch.add([expr], compare)
+
+
+# =========================================================================== parameter negotiation boundaries
+PN_SIZES = [0, 22, 23, 24, 1000, 32767, 32768, 65535]
+PN_MTUS = [(2048, 2048), (27, 2048), (2048, 27), (28, 28), (48, 48), (65535, 65535)]
+
+
+def run_pn_impl(ini_size, rsp_size, mtu_i, mtu_r):
+    """open_dlc with the initiator proposing ini_size and the responder configured with rsp_size;
+    returns (outcome 0/1/2, initiator DLC obs, responder DLC obs, problem)"""
+    async def main():
+        from bumble import core
+        pair = Pair(mtu_i, mtu_r)
+        await pair.connect()
+        pair.mb.acceptor = lambda ch: (rsp_size, 5)
+        t = asyncio.ensure_future(pair.ma.open_dlc(1, ini_size, 4))
+        t.add_done_callback(lambda t: t.cancelled() or t.exception())
+        await asyncio.sleep(0)
+        await pair.pump()
+        for _ in range(4):
+            await asyncio.sleep(0)
+        problem = None
+        if not t.done():
+            t.cancel()
+            return None, None, None, 'open_dlc is still pending with nothing in flight'
+        da, db = pair.ma.dlcs.get(2), pair.mb.dlcs.get(2)
+        if t.exception() is None:
+            outcome = 2
+        elif db is not None:
+            outcome = 1
+        else:
+            outcome = 0
+        if not isinstance(t.exception(), (type(None), core.ConnectionError)):
+            problem = f'open_dlc ended with {type(t.exception()).__name__}'
+        oa = ob = None
+        if outcome == 2:
+            oa = [da.mtu, da.tx_credits, da.rx_credits, 0]
+            ob = [db.mtu, db.tx_credits, db.rx_credits, 0]
+            if int(da.state) != 2 or int(db.state) != 2:
+                problem = f'open_dlc returned but the link states are {da.state.name} / {db.state.name}'
+            # the link that came up carries the exact stream within the negotiated limits
+            got_a, got_b = bytearray(), bytearray()
+            da.sink = got_a.extend
+            db.sink = got_b.extend
+            wa, wb = gen_bytes(1, 3 * min(da.mtu, 400) + 1), gen_bytes(2, 2 * min(db.mtu, 400) + 5)
+            da.write(wa)
+            db.write(wb)
+            steps = 0
+            while pair.ab or pair.ba:
+                for q, lim in ((pair.ab, min(rsp_size, mtu_r - 5)), (pair.ba, min(ini_size, mtu_i - 5))):
+                    for p in q:
+                        if len(parse_frame(p)[3]) > lim and problem is None:
+                            problem = f'payload: frame of {len(parse_frame(p)[3])} information bytes, limit {lim}'
+                pair.deliver_ab()
+                pair.deliver_ba()
+                steps += 1
+                if steps > 5000:
+                    problem = problem or 'progress: frames still in flight after 5000 rounds'
+                    break
+            if (bytes(got_b) != wa or bytes(got_a) != wb) and problem is None:
+                problem = f'stream: wrote {len(wa)}/{len(wb)} bytes, peer received {len(got_b)}/{len(got_a)}'
+        elif da is not None:
+            problem = 'open_dlc failed but the initiator keeps a DLC'
+        return outcome, oa, ob, problem
+    return run_virtual(main())
+
+
+def run_pn(ctx, batch):
+    cases = [(a, b, mi, mr) for a in PN_SIZES for b in PN_SIZES for (mi, mr) in PN_MTUS[:ctx.n(3, 6)]]
+    exprs = [f'(pn_negotiate (mkPn {a} 4) (mkPn {b} 5) {mi} {mr}, dlc_obs (s_a (setup (mkPn {a} 4) (mkPn {b} 5) {mi} {mr})), '
+             f'dlc_obs (s_b (setup (mkPn {a} 4) (mkPn {b} 5) {mi} {mr})))' for a, b, mi, mr in cases]
+
+    def compare(model):
+        for (a, b, mi, mr), m in zip(cases, model):
+            outcome, oa, ob, problem = run_pn_impl(a, b, mi, mr)
+            ctx.case(('pn', a, b, mi, mr), outcome == 2, None)
+            ctx.count(f'pn.outcome.{outcome}')
+            rep = {'kind': 'pn', 'ini': a, 'rsp': b, 'mtu_i': mi, 'mtu_r': mr}
+            mo, moa, mob = m[0], list(m[1]), list(m[2])
+            if mo != outcome or (outcome == 2 and (moa != oa or mob != ob)):
+                ctx.disagree('parameter negotiation', rep, [mo, moa, mob], [outcome, oa, ob])
+            # oracle: sizes in the protocol's range always come up; what comes up works
+            in_range = 23 <= a <= 32767 and 23 <= b <= 32767 and min(a, mi - 5) >= 23 and min(b, mr - 5) >= 23
+            if problem:
+                ctx.violation('rfcomm:pn:' + problem.split(':')[0], f'PN negotiation {rep}: {problem}', rep)
+            elif in_range and outcome != 2:
+                ctx.violation('rfcomm:pn:refused', f'PN negotiation {rep}: frame sizes in range but the link did not come up', rep)
+    batch.add(exprs, compare)
 
 
 # =========================================================================== HFP SLC
@@ -1805,6 +1913,7 @@ def run(ctx):
     run_sm2(ctx, scheds2, batch)
     run_d20j(ctx, batch)
     run_presink(ctx, batch)
+    run_pn(ctx, batch)
     # ---- HFP SLC
     slc_cases = [c['replay']['case'] for c in corpus if c['replay']['kind'] == 'slc']
     r = rng.fork('slc')
@@ -1899,6 +2008,11 @@ def replay_one(ctx, r, report=False):
         trace, bad = run_sm2_impl(r['labels'])
         verdict = bad
         sig = 'rfcomm:multi-teardown'
+    elif r['kind'] == 'pn':
+        outcome, oa, ob, problem = run_pn_impl(r['ini'], r['rsp'], r['mtu_i'], r['mtu_r'])
+        if problem:
+            verdict = problem
+            sig = 'rfcomm:pn:' + problem.split(':')[0]
     elif r['kind'] == 'presink':
         got, written = run_presink_impl(r['before'], r['after'], r['size'])
         if got != written:
